@@ -1,19 +1,43 @@
-(* C11 driver: one case per line "<op> <args...>" (decimal) -> "<ok> <num> <den>" or NONE (fuel exhausted) *)
+(* C11 driver: one case per line "<op> <args...>" (decimal)
+     integer ops  -> "<ok> <num> <den>"                         or NONE (fuel exhausted)
+     poly ops     -> "<ok> N <coeffs low degree first> D <coeffs>"   or NONE
+       poly.rr5 / poly.check / poly.rr6   p dk fr nP c0 .. nM c0 ..                                   *)
 let zs = z_of_string
 let b s = s <> "0"
-(* argv: fx1 fx2 (which of the two repairs the source carries; probed by the check) *)
-let fx1 = Array.length Sys.argv > 1 && Sys.argv.(1) = "1"
-let fx2 = Array.length Sys.argv > 2 && Sys.argv.(2) = "1"
 let pr = function
   | None -> "NONE"
   | Some ((ok, n), d) -> string_of_bool ok ^ " " ^ string_of_z n ^ " " ^ string_of_z d
+let prp = function
+  | None -> "NONE"
+  | Some ((ok, n), d) ->
+    String.concat " " ([string_of_bool ok; "N"] @ List.map string_of_z n @ ["D"] @ List.map string_of_z d)
+let rec take n l = if n <= 0 then [] else match l with [] -> [] | x :: t -> x :: take (n - 1) t
+let rec drop n l = if n <= 0 then l else match l with [] -> [] | _ :: t -> drop (n - 1) t
+let poly op p dk fr rest =
+  match rest with
+  | np :: r1 ->
+    let np = int_of_string np in
+    let pp = List.map zs (take np r1) in
+    (match drop np r1 with
+     | nm :: r2 ->
+       let nm = int_of_string nm in
+       let mm = List.map zs (take nm r2) in
+       let p = zs p and dk = zs dk in
+       (match op with
+        | "poly.rr5" -> prp (Model.pratrecon6 p pp mm dk false)
+        | "poly.check" -> prp (Model.pratreconcheck p pp mm dk)
+        | "poly.rr6" -> prp (Model.pratrecon6 p pp mm dk (b fr))
+        | _ -> "BAD-LINE")
+     | [] -> "BAD-LINE")
+  | [] -> "BAD-LINE"
 let () = run_lines (fun toks ->
   match toks with
-  | ["ratrecon"; f; m; k; fr] -> pr (Model.ratrecon fx1 (zs f) (zs m) (zs k) (b fr))
-  | ["rr7"; f; m; k; fr; rc] -> pr (Model.rR7 fx1 (zs f) (zs m) (zs k) (b fr) (b rc))
-  | ["rr4"; f; m] -> pr (Model.rR4 fx1 (zs f) (zs m))
-  | ["rr6"; f; m; ab; bb] -> pr (Model.rR6 fx1 fx2 (zs f) (zs m) (zs ab) (zs bb))
-  | ["ctor"; f; m; k; fl; rc] -> pr (Model.ratCtor fx1 (zs f) (zs m) (zs k) (b fl) (b rc))
-  | ["qfk"; f; m; k; fl; rc] -> pr (Model.qF_ratrecon_k fx1 (zs f) (zs m) (zs k) (b fl) (b rc))
-  | ["qf"; f; m; fl; rc] -> pr (Model.qF_ratrecon fx1 (zs f) (zs m) (b fl) (b rc))
+  | ["ratrecon"; f; m; k; fr] -> pr (Model.ratrecon (zs f) (zs m) (zs k) (b fr))
+  | ["rr7"; f; m; k; fr; rc] -> pr (Model.rR7 (zs f) (zs m) (zs k) (b fr) (b rc))
+  | ["rr4"; f; m] -> pr (Model.rR4 (zs f) (zs m))
+  | ["rr6"; f; m; ab; bb] -> pr (Model.rR6 (zs f) (zs m) (zs ab) (zs bb))
+  | ["ctor"; f; m; k; fl; rc] -> pr (Model.ratCtor (zs f) (zs m) (zs k) (b fl) (b rc))
+  | ["qfk"; f; m; k; fl; rc] -> pr (Model.qF_ratrecon_k (zs f) (zs m) (zs k) (b fl) (b rc))
+  | ["qf"; f; m; fl; rc] -> pr (Model.qF_ratrecon (zs f) (zs m) (b fl) (b rc))
+  | op :: p :: dk :: fr :: rest when String.length op > 5 && String.sub op 0 5 = "poly." -> poly op p dk fr rest
   | _ -> "BAD-LINE")
